@@ -38,26 +38,34 @@ def lib_material(mat, cache=True):
     raise ValueError(k)
 
 
-def surface_kwargs(s):
+INF_ = float('inf')
+
+
+def _as_int(v, ints):
+    """whole-number values as Python ints when asked for (the API accepts them; types then travel through the lens)"""
+    return int(v) if ints and isinstance(v, float) and math.isfinite(v) and v == int(v) else v
+
+
+def surface_kwargs(s, ints=False):
     from optiland.physical_apertures import RadialAperture
     from optiland.coatings import SimpleCoating
     kw = {}
     typ = s['type']
     R = fl(s['R'])
     if typ == 'standard':
-        kw['radius'] = R
-        if s['k']:
-            kw['conic'] = s['k']
+        kw['radius'] = _as_int(R, ints)
+        if s['k'] or (ints and R != INF_):
+            kw['conic'] = _as_int(s['k'], ints)
     else:
-        kw['radius'] = R
-        kw['conic'] = s['k']
+        kw['radius'] = _as_int(R, ints)
+        kw['conic'] = _as_int(s['k'], ints)
         if typ == 'even_asphere':
             kw['coefficients'] = list(s['coef'] or [])
         else:
             kw['coefficients'] = [list(r) for r in (s['coef'] or [[0.0]])]
         if typ == 'chebyshev':
             kw['norm_x'] = s['norm']
-            kw['norm_y'] = s['norm']
+            kw['norm_y'] = s.get('norm_y', s['norm'])
         if s.get('tol') is not None:
             kw['tol'] = s['tol']
     for key in ('dx', 'dy', 'rx', 'ry'):
@@ -104,7 +112,7 @@ def used_optic():
     return o
 
 
-def build(spec, cache_materials=True, with_settings=True, optic=None):
+def build(spec, cache_materials=True, with_settings=True, optic=None, ints=False):
     from optiland.optic import Optic
     from optiland.materials import IdealMaterial
     if optic is None:
@@ -119,8 +127,8 @@ def build(spec, cache_materials=True, with_settings=True, optic=None):
     else:
         o.add_surface(index=0, radius=np.inf, thickness=t_obj)
     for i, s in enumerate(spec['surfs']):
-        kw = surface_kwargs(s)
-        o.add_surface(index=i + 1, surface_type=s['type'], thickness=float(s['t']),
+        kw = surface_kwargs(s, ints)
+        o.add_surface(index=i + 1, surface_type=s['type'], thickness=_as_int(float(s['t']), ints),
                       material=lib_material(s['mat'], cache_materials), is_stop=bool(s.get('stop')), **kw)
     K = len(spec['surfs'])
     im = spec['img'].get('mat', {'kind': 'air'})
